@@ -284,8 +284,10 @@ SelectRef(c, ver) ==
 (*          log entry, no output record changed)                           *)
 (*   fin    the late-lock finalisation: on, res, ins, invals, change, fee, *)
 (*          valid (the final transaction validates), kept                  *)
-(* Sums are taken in the naturals (no wrap): each term is < WRAP and there *)
-(* are at most 9 terms, checked before summing.                            *)
+(*          ntxin/ntxout (shape of the final transaction), kept            *)
+(* Sums are taken in the naturals (no wrap): every term is checked to lie  *)
+(* in 0..TOP and the number of terms is bounded (7 inputs, 4 change        *)
+(* outputs) before summing, so no sum passes 2^31.                         *)
 (***************************************************************************)
 RECURSIVE SumSeq(_)
 SumSeq(s) == IF s = <<>> THEN 0 ELSE Head(s) + SumSeq(Tail(s))
@@ -301,7 +303,6 @@ Spendable(o, H, m) ==
      \/ o.st = "Unconfirmed" /\ ~o.cb /\ m = 0
 
 Representable(s) == \A i \in DOMAIN s : s[i] >= 0 /\ s[i] <= TOP
-Small(s) == Len(s) <= 4
 
 \* every input is a distinct, currently spendable output of the source account,
 \* recorded with its true value
@@ -316,7 +317,7 @@ InputsEligible(c, ins, invals) ==
 
 \* total = A' + fee + change, A' = A (or A - fee and total = A + change)
 Conservation(c, invals, change, fee, amt) ==
-  /\ Small(invals) /\ Small(change) /\ Representable(invals) /\ Representable(change)
+  /\ Len(invals) <= 7 /\ Len(change) <= 4 /\ Representable(invals) /\ Representable(change)
   /\ fee >= 0 /\ fee <= TOP /\ amt >= 0 /\ amt <= TOP
   /\ SumSeq(invals) = amt + fee + SumSeq(change)
 AmountAgreed(c, fee, amt) ==
@@ -378,8 +379,7 @@ AsOutcome(c, x) ==
 \* ----------------------------------------------------------------------
 \* the change the pinned code would have to split, -1 if it does not get there
 RefChange(c) ==
-  LET acct == c.src
-      S == SelectCoinsAndFee(c, acct, c.amt, c.incfee /\ c.flow = "send", Orig)
+  LET S == SelectCoinsAndFee(c, c.src, c.amt, c.incfee /\ c.flow = "send", Orig)
   IN IF c.flow = "late"
      THEN LET S1 == SelectCoinsAndFee(c, c.src, c.amt, c.incfee, Orig) IN
           IF S1.res # "ok" THEN -1
